@@ -114,19 +114,19 @@ def upper (T : Option Row) (S E : Row) (c : String) : List (Option PV) :=
 /-- what the levels prescribe for the key `sk` a source reads (`pre` = the source's prefix): scaled
 entries are divided by the number of groups below the site and by the number of components below
 the group, everything else is handed down unchanged -/
-def specPlain (tb : Tables) (G : Dict String) (T : Option Row) (S E R : Row) (nG nC : Nat)
+def specPlain (tb : Tables) (G : Dict String) (T : Option Row) (S E R : Row) (nG : Rat) (nC : Nat)
     (pre sk : String) : PV :=
   if pre ++ sk ∈ tb.scalePlain then
     resolve [R.get? sk]
       ((resolve [E.get? (pre ++ sk)]
-        ((resolve [typeGet T (pre ++ sk), S.get? (pre ++ sk)] (G.get (pre ++ sk))).divNat nG)).divPos nC)
+        ((resolve [typeGet T (pre ++ sk), S.get? (pre ++ sk)] (G.get (pre ++ sk))).divBy nG)).divPos nC)
   else
     resolve (upper T S E (pre ++ sk) ++ [R.get? sk]) (G.get (pre ++ sk))
 
 /-- every key the source level reads, for every site type / site / equipment / source row: the
 dictionary-passing model yields the value prescribed by the chain of levels -/
 theorem source_key_spec (tb : Tables) (hw : tb.WF) (methods : List String) (G : Dict String)
-    (Gm : Dict MKey) (T : Option Row) (S E R : Row) (nG : Nat) (rep : Bool) (sk : String)
+    (Gm : Dict MKey) (T : Option Row) (S E R : Row) (nG : Rat) (rep : Bool) (sk : String)
     (hsk : sk ∈ tb.srcKeysFor rep) :
     (unprefixLoop (tb.prefixOf rep) R (compCtx tb methods G Gm T S E nG)).get sk
       = specPlain tb G T S E R nG (totalComponents tb E) (tb.prefixOf rep) sk := by
@@ -152,7 +152,7 @@ theorem not_scaled_of_ne (tb : Tables) (hw : tb.WF) (rep : Bool) (sk : String)
 (repairable sources) repair delay and cost in effect at a source are those of the most granular of
 source row, equipment row, site row, site type row that specifies them, else the global value -/
 theorem source_most_granular_wins (tb : Tables) (hw : tb.WF) (methods : List String)
-    (G : Dict String) (Gm : Dict MKey) (T : Option Row) (S E R : Row) (nG : Nat) (sid : String)
+    (G : Dict String) (Gm : Dict MKey) (T : Option Row) (S E R : Row) (nG : Rat) (sid : String)
     (rep : Bool) (m : Dict MKey) :
     let s := sourceEff tb methods sid rep R (compCtx tb methods G Gm T S E nG) m
     let chain := fun sk => resolve (upper T S E (tb.prefixOf rep ++ sk) ++ [R.get? sk])
@@ -185,13 +185,13 @@ theorem source_most_granular_wins (tb : Tables) (hw : tb.WF) (methods : List Str
 global) divided by the number of equipment groups, replaced by the equipment row's value if given,
 divided by the group's component count when positive, replaced by the source row's value if given -/
 theorem source_production_rate_spec (tb : Tables) (hw : tb.WF) (methods : List String)
-    (G : Dict String) (Gm : Dict MKey) (T : Option Row) (S E R : Row) (nG : Nat) (sid : String)
+    (G : Dict String) (Gm : Dict MKey) (T : Option Row) (S E R : Row) (nG : Rat) (sid : String)
     (rep : Bool) (m : Dict MKey) :
     (sourceEff tb methods sid rep R (compCtx tb methods G Gm T S E nG) m).epr
       = resolve [R.get? tb.srcEpr]
           ((resolve [E.get? (tb.prefixOf rep ++ tb.srcEpr)]
             ((resolve [typeGet T (tb.prefixOf rep ++ tb.srcEpr), S.get? (tb.prefixOf rep ++ tb.srcEpr)]
-                (G.get (tb.prefixOf rep ++ tb.srcEpr))).divNat nG)).divPos (totalComponents tb E)) := by
+                (G.get (tb.prefixOf rep ++ tb.srcEpr))).divBy nG)).divPos (totalComponents tb E)) := by
   have e : tb.srcEpr ∈ tb.srcKeysFor rep := by simp [Tables.srcKeysFor]
   have hsc : tb.prefixOf rep ++ tb.srcEpr ∈ tb.scalePlain :=
     (hw.2.1.named.scaledIff rep (by cases rep <;> simp) _ e).mpr rfl
@@ -203,19 +203,19 @@ theorem source_production_rate_spec (tb : Tables) (hw : tb.WF) (methods : List S
 /-- spatial and temporal coverage of every method at a source: most granular of source row,
 equipment row, site row, site type row, else the method's parameter file -/
 theorem source_coverage_most_granular_wins (tb : Tables) (hw : tb.WF) (methods : List String)
-    (G : Dict String) (Gm : Dict MKey) (T : Option Row) (S E R : Row) (nG : Nat) (sid : String)
+    (G : Dict String) (Gm : Dict MKey) (T : Option Row) (S E R : Row) (nG : Rat) (sid : String)
     (rep : Bool) (d : Dict String) :
     let s := sourceEff tb methods sid rep R d (groupCtx tb methods G Gm T S E nG).2
     s.spatial = methods.map (fun me =>
-        resolve (upper T S E (me ++ tb.srcSpatial) ++ [R.get? (me ++ tb.srcSpatial)]) (Gm.get (me, tb.srcSpatial)))
+        resolve (upper T S E (me ++ tb.srcSpatial) ++ [R.get? (me ++ tb.srcSpatial)]) (gmVal tb Gm (me, tb.srcSpatial)))
     ∧ s.temporal = methods.map (fun me =>
-        resolve (upper T S E (me ++ tb.srcTemporal) ++ [R.get? (me ++ tb.srcTemporal)]) (Gm.get (me, tb.srcTemporal))) := by
+        resolve (upper T S E (me ++ tb.srcTemporal) ++ [R.get? (me ++ tb.srcTemporal)]) (gmVal tb Gm (me, tb.srcTemporal))) := by
   intro s
   obtain ⟨hsame, _, hp0, _⟩ := hw
   have hp := hp0.named
   have one : ∀ p, p ∈ tb.globalMeth → p ∈ tb.sourceMeth → p ∉ tb.scaleMeth → ∀ me ∈ methods,
       (updFrom MKey.col (methKeys methods tb.sourceMeth) R (groupCtx tb methods G Gm T S E nG).2).get (me, p)
-        = resolve (upper T S E (me ++ p) ++ [R.get? (me ++ p)]) (Gm.get (me, p)) := by
+        = resolve (upper T S E (me ++ p) ++ [R.get? (me ++ p)]) (gmVal tb Gm (me, p)) := by
     intro p hpg hps hpn me hme
     have hpgm : p ∈ tb.groupMeth := (List.mem_filter.mp hps).1
     rw [get_updFrom]
@@ -230,7 +230,7 @@ theorem source_coverage_most_granular_wins (tb : Tables) (hw : tb.WF) (methods :
 /-- the equipment group `gid` (equipment row `E`) of a site with site row `S`, site type row `T`,
 when the site has `nG` groups: exactly the call `Site._create_equipment_groups` makes -/
 def groupAt (tb : Tables) (methods : List String) (files : Files) (G : Dict String) (Gm : Dict MKey)
-    (T : Option Row) (S : Row) (gid : String) (E : Row) (nG : Nat) : GroupEff :=
+    (T : Option Row) (S : Row) (gid : String) (E : Row) (nG : Rat) : GroupEff :=
   buildGroup tb methods files gid E
     (scaleKeys tb.scalePlain nG (siteDicts tb methods G Gm T S).1)
     (scaleKeys (methKeys methods tb.scaleMeth) nG (siteDicts tb methods G Gm T S).2)
@@ -240,7 +240,7 @@ def typeRowOf (files : Files) (s : SiteRow) : Option Row := (findType files s).m
 
 /-- the groups of a site as the files describe them: (id, equipment row, divisor) -/
 def groupsOf (tb : Tables) (methods : List String) (G : Dict String) (Gm : Dict MKey) (files : Files)
-    (s : SiteRow) : List (String × Row × Nat) :=
+    (s : SiteRow) : List (String × Row × Rat) :=
   siteGroups tb files (equipFor files s (findType files s))
     (siteDicts tb methods G Gm (typeRowOf files s) s.cells).1
 
@@ -251,7 +251,7 @@ theorem buildSite_groups (tb : Tables) (methods : List String) (G : Dict String)
           groupAt tb methods files G Gm (typeRowOf files s) s.cells g.1 g.2.1 g.2.2) := rfl
 
 theorem groupAt_comps (tb : Tables) (methods : List String) (files : Files) (G : Dict String)
-    (Gm : Dict MKey) (T : Option Row) (S : Row) (gid : String) (E : Row) (nG : Nat) :
+    (Gm : Dict MKey) (T : Option Row) (S : Row) (gid : String) (E : Row) (nG : Rat) :
     (groupAt tb methods files G Gm T S gid E nG).comps
       = (cleanedCells tb E).flatMap (fun c => (List.range (cellCount c.2)).map (fun i =>
           { cid := compType c.1 ++ "_" ++ toString i,
@@ -263,10 +263,10 @@ theorem groupAt_comps (tb : Tables) (methods : List String) (files : Files) (G :
 /-- survey time and cost of an equipment group, per method: the equipment row's value if given, else
 the site's value (most granular of site, site type, method file) divided by the number of groups -/
 theorem group_survey_spec (tb : Tables) (hw : tb.WF) (methods : List String) (files : Files)
-    (G : Dict String) (Gm : Dict MKey) (T : Option Row) (S : Row) (gid : String) (E : Row) (nG : Nat) :
+    (G : Dict String) (Gm : Dict MKey) (T : Option Row) (S : Row) (gid : String) (E : Row) (nG : Rat) :
     let g := groupAt tb methods files G Gm T S gid E nG
     let spec := fun p me => resolve [E.get? (me ++ p)]
-        ((resolve [typeGet T (me ++ p), S.get? (me ++ p)] (Gm.get (me, p))).divNat nG)
+        ((resolve [typeGet T (me ++ p), S.get? (me ++ p)] (gmVal tb Gm (me, p))).divBy nG)
     g.gid = gid ∧ g.times = methods.map (spec tb.eqTimeKey) ∧ g.costs = methods.map (spec tb.eqCostKey) := by
   intro g spec
   obtain ⟨hsame, hs0, hp0, _⟩ := hw
@@ -289,9 +289,9 @@ theorem site_most_granular_wins (tb : Tables) (hw : tb.WF) (methods : List Strin
     let T := typeRowOf files s
     let spec := fun p g me => resolve [typeGet T (me ++ p), s.cells.get? (me ++ p)] (g me)
     site.sid = s.sid ∧ site.stype = s.stype ∧
-    site.freq = methods.map (spec tb.freqKey (fun me => Gm.get (me, tb.freqKey))) ∧
-    site.months = methods.map (spec tb.monthsKey (fun me => Gm.get (me, tb.monthsKey))) ∧
-    site.years = methods.map (spec tb.yearsKey (fun me => Gm.get (me, tb.yearsKey))) ∧
+    site.freq = methods.map (spec tb.freqKey (fun me => gmVal tb Gm (me, tb.freqKey))) ∧
+    site.months = methods.map (spec tb.monthsKey (fun me => gmVal tb Gm (me, tb.monthsKey))) ∧
+    site.years = methods.map (spec tb.yearsKey (fun me => gmVal tb Gm (me, tb.yearsKey))) ∧
     site.deploy = methods.map (spec tb.siteDeploy (fun _ => PV.tru)) := by
   intro site T spec
   obtain ⟨hsame, _, hp0, _⟩ := hw
@@ -299,7 +299,7 @@ theorem site_most_granular_wins (tb : Tables) (hw : tb.WF) (methods : List Strin
   have inAll : ∀ p, p ∈ tb.globalMeth → p ∈ tb.allMeth := by
     intro p h; simp [Tables.allMeth, h]
   have one : ∀ p, p ∈ tb.globalMeth → ∀ me ∈ methods,
-      (siteDicts tb methods G Gm T s.cells).2.get (me, p) = spec p (fun me => Gm.get (me, p)) me := by
+      (siteDicts tb methods G Gm T s.cells).2.get (me, p) = spec p (fun me => gmVal tb Gm (me, p)) me := by
     intro p hpg me hme
     rw [get_siteMeth tb hsame methods G Gm T s.cells me p hme (inAll p hpg)]
     simp [spec, globalMethVal, hpg]
@@ -343,7 +343,7 @@ theorem survey_split_conserved (x : Rat) (n : Nat) (hn : n ≠ 0) :
   exact mul_div_cancel_nat x n hn
 
 /-- a site's equipment groups do not override `col` -/
-def NoGroupOverride (gs : List (String × Row × Nat)) (col : String) : Prop :=
+def NoGroupOverride (gs : List (String × Row × Rat)) (col : String) : Prop :=
   ∀ g ∈ gs, g.2.1.get? col = none
 
 /-- **production rate conserved in the model of the code**: for a site whose equipment rows do not
@@ -353,6 +353,7 @@ theorem site_production_rate_conserved (tb : Tables) (hw : tb.WF) (methods : Lis
     (G : Dict String) (Gm : Dict MKey) (files : Files) (s : SiteRow) (x : Rat) (hx : 0 ≤ x)
     (hsite : resolve [typeGet (typeRowOf files s) tb.eqRepEpr, s.cells.get? tb.eqRepEpr] (G.get tb.eqRepEpr) = .num x)
     (hgs : groupsOf tb methods G Gm files s ≠ [])
+    (hint : (equipFor files s (findType files s)).Integral)
     (hno : NoGroupOverride (groupsOf tb methods G Gm files s) tb.eqRepEpr)
     (hcomp : ∀ g ∈ groupsOf tb methods G Gm files s, totalComponents tb g.2.1 ≠ 0) :
     ((buildSite tb methods G Gm files s).groups.map
@@ -367,20 +368,20 @@ theorem site_production_rate_conserved (tb : Tables) (hw : tb.WF) (methods : Lis
         (fun g => groupAt tb methods files G Gm (typeRowOf files s) s.cells g.1 g.2.1 g.2.2)) g
         = x / ((groupsOf tb methods G Gm files s).length : Rat) := by
     intro g hg
-    have hdiv : g.2.2 = (groupsOf tb methods G Gm files s).length := siteGroups_divisor _ _ _ _ g hg
+    have hdiv : g.2.2 = ((groupsOf tb methods G Gm files s).length : Rat) := siteGroups_divisor _ _ _ _ hint g hg
     simp only [Function.comp]
     rw [groupAt_comps]
     have hval : (compCtx tb methods G Gm (typeRowOf files s) s.cells g.2.1 g.2.2).get tb.eqRepEpr
-        = ((PV.num x).divNat g.2.2).divPos (totalComponents tb g.2.1) := by
+        = ((PV.num x).divBy g.2.2).divPos (totalComponents tb g.2.1) := by
       rw [get_compCtx tb hsame hs0 methods G Gm _ _ _ _ _ hs.repG]
       simp only [hs.repIn, if_true, resolve_cons, resolve_nil, hno g hg, Option.getD_none]
       have := hsite
       simp only [resolve_cons, resolve_nil] at this
       rw [this]
-    rw [sum_map_eq_const _ _ (numOf (((PV.num x).divNat g.2.2).divPos (totalComponents tb g.2.1)))]
+    rw [sum_map_eq_const _ _ (numOf (((PV.num x).divBy g.2.2).divPos (totalComponents tb g.2.1)))]
     · rw [length_flatMap_range]
       have : ((cleanedCells tb g.2.1).map (fun c => cellCount c.2)).sum = totalComponents tb g.2.1 := rfl
-      rw [this, comp_split x g.2.2 _ (by rw [hdiv]; exact hlen) (hcomp g hg) hx, hdiv]
+      rw [this, comp_split x g.2.2 _ (by rw [hdiv]; exact Rat.natCast_pos.mpr (Nat.pos_of_ne_zero hlen)) (hcomp g hg) hx, hdiv]
     · intro c hc
       simp only [List.mem_flatMap, List.mem_map] at hc
       obtain ⟨_, _, _, _, hc⟩ := hc
@@ -392,6 +393,7 @@ theorem site_production_rate_conserved_nonrep (tb : Tables) (hw : tb.WF) (method
     (G : Dict String) (Gm : Dict MKey) (files : Files) (s : SiteRow) (x : Rat) (hx : 0 ≤ x)
     (hsite : resolve [typeGet (typeRowOf files s) tb.eqNonRepEpr, s.cells.get? tb.eqNonRepEpr] (G.get tb.eqNonRepEpr) = .num x)
     (hgs : groupsOf tb methods G Gm files s ≠ [])
+    (hint : (equipFor files s (findType files s)).Integral)
     (hno : NoGroupOverride (groupsOf tb methods G Gm files s) tb.eqNonRepEpr)
     (hcomp : ∀ g ∈ groupsOf tb methods G Gm files s, totalComponents tb g.2.1 ≠ 0) :
     ((buildSite tb methods G Gm files s).groups.map
@@ -406,20 +408,20 @@ theorem site_production_rate_conserved_nonrep (tb : Tables) (hw : tb.WF) (method
         (fun g => groupAt tb methods files G Gm (typeRowOf files s) s.cells g.1 g.2.1 g.2.2)) g
         = x / ((groupsOf tb methods G Gm files s).length : Rat) := by
     intro g hg
-    have hdiv : g.2.2 = (groupsOf tb methods G Gm files s).length := siteGroups_divisor _ _ _ _ g hg
+    have hdiv : g.2.2 = ((groupsOf tb methods G Gm files s).length : Rat) := siteGroups_divisor _ _ _ _ hint g hg
     simp only [Function.comp]
     rw [groupAt_comps]
     have hval : (compCtx tb methods G Gm (typeRowOf files s) s.cells g.2.1 g.2.2).get tb.eqNonRepEpr
-        = ((PV.num x).divNat g.2.2).divPos (totalComponents tb g.2.1) := by
+        = ((PV.num x).divBy g.2.2).divPos (totalComponents tb g.2.1) := by
       rw [get_compCtx tb hsame hs0 methods G Gm _ _ _ _ _ hs.nonG]
       simp only [hs.nonIn, if_true, resolve_cons, resolve_nil, hno g hg, Option.getD_none]
       have := hsite
       simp only [resolve_cons, resolve_nil] at this
       rw [this]
-    rw [sum_map_eq_const _ _ (numOf (((PV.num x).divNat g.2.2).divPos (totalComponents tb g.2.1)))]
+    rw [sum_map_eq_const _ _ (numOf (((PV.num x).divBy g.2.2).divPos (totalComponents tb g.2.1)))]
     · rw [length_flatMap_range]
       have : ((cleanedCells tb g.2.1).map (fun c => cellCount c.2)).sum = totalComponents tb g.2.1 := rfl
-      rw [this, comp_split x g.2.2 _ (by rw [hdiv]; exact hlen) (hcomp g hg) hx, hdiv]
+      rw [this, comp_split x g.2.2 _ (by rw [hdiv]; exact Rat.natCast_pos.mpr (Nat.pos_of_ne_zero hlen)) (hcomp g hg) hx, hdiv]
     · intro c hc
       simp only [List.mem_flatMap, List.mem_map] at hc
       obtain ⟨_, _, _, _, hc⟩ := hc
@@ -441,7 +443,8 @@ private theorem group_values_no_override (tb : Tables) (hw : tb.WF) (methods : L
     (G : Dict String) (Gm : Dict MKey) (files : Files) (s : SiteRow) (i : Nat)
     (hi : i < methods.length) (x : Rat) (p : String) (hp : p = tb.eqTimeKey ∨ p = tb.eqCostKey)
     (hsite : resolve [typeGet (typeRowOf files s) (methods[i] ++ p), s.cells.get? (methods[i] ++ p)]
-                (Gm.get (methods[i], p)) = .num x)
+                (gmVal tb Gm (methods[i], p)) = .num x)
+    (hint : (equipFor files s (findType files s)).Integral)
     (hno : NoGroupOverride (groupsOf tb methods G Gm files s) (methods[i] ++ p)) :
     (buildSite tb methods G Gm files s).groups.map
         (fun g => (if p = tb.eqTimeKey then g.times else g.costs).getD i .nul)
@@ -450,7 +453,7 @@ private theorem group_values_no_override (tb : Tables) (hw : tb.WF) (methods : L
   rw [buildSite_groups, List.map_map, List.map_map]
   apply List.map_congr_left
   intro g hg
-  have hdiv : g.2.2 = (groupsOf tb methods G Gm files s).length := siteGroups_divisor _ _ _ _ g hg
+  have hdiv : g.2.2 = ((groupsOf tb methods G Gm files s).length : Rat) := siteGroups_divisor _ _ _ _ hint g hg
   have hspec := group_survey_spec tb hw methods files G Gm (typeRowOf files s) s.cells g.1 g.2.1 g.2.2
   simp only at hspec
   simp only [Function.comp]
@@ -460,16 +463,16 @@ private theorem group_values_no_override (tb : Tables) (hw : tb.WF) (methods : L
   · subst hp
     simp only [if_true]
     rw [hspec.2.1, getD_map_get _ _ _ hi]
-    simp only [resolve_cons, resolve_nil, hno g hg, Option.getD_none, hsite', PV.divNat, hdiv]
+    simp only [resolve_cons, resolve_nil, hno g hg, Option.getD_none, hsite', PV.divBy, hdiv]
   · by_cases hpt : p = tb.eqTimeKey
     · subst hpt
       simp only [if_true]
       rw [hspec.2.1, getD_map_get _ _ _ hi]
-      simp only [resolve_cons, resolve_nil, hno g hg, Option.getD_none, hsite', PV.divNat, hdiv]
+      simp only [resolve_cons, resolve_nil, hno g hg, Option.getD_none, hsite', PV.divBy, hdiv]
     · subst hp
       simp only [hpt, if_false]
       rw [hspec.2.2, getD_map_get _ _ _ hi]
-      simp only [resolve_cons, resolve_nil, hno g hg, Option.getD_none, hsite', PV.divNat, hdiv]
+      simp only [resolve_cons, resolve_nil, hno g hg, Option.getD_none, hsite', PV.divBy, hdiv]
 
 /-- **survey cost conserved**: without equipment-level overrides the site's survey cost for a method
 is the site-level value again (`Σ groups (x / n) = x`) -/
@@ -477,13 +480,14 @@ theorem site_cost_conserved (tb : Tables) (hw : tb.WF) (methods : List String)
     (G : Dict String) (Gm : Dict MKey) (files : Files) (s : SiteRow) (i : Nat)
     (hi : i < methods.length) (x : Rat)
     (hsite : resolve [typeGet (typeRowOf files s) (methods[i] ++ tb.eqCostKey),
-                      s.cells.get? (methods[i] ++ tb.eqCostKey)] (Gm.get (methods[i], tb.eqCostKey)) = .num x)
+                      s.cells.get? (methods[i] ++ tb.eqCostKey)] (gmVal tb Gm (methods[i], tb.eqCostKey)) = .num x)
     (hgs : groupsOf tb methods G Gm files s ≠ [])
+    (hint : (equipFor files s (findType files s)).Integral)
     (hno : NoGroupOverride (groupsOf tb methods G Gm files s) (methods[i] ++ tb.eqCostKey)) :
     (buildSite tb methods G Gm files s).cost.getD i .nul = .num x := by
   have hlen : (groupsOf tb methods G Gm files s).length ≠ 0 := by
     intro h; exact hgs (List.length_eq_zero_iff.mp h)
-  have hv := group_values_no_override tb hw methods G Gm files s i hi x tb.eqCostKey (Or.inr rfl) hsite hno
+  have hv := group_values_no_override tb hw methods G Gm files s i hi x tb.eqCostKey (Or.inr rfl) hsite hint hno
   show ((List.range methods.length).map (siteCost (buildSite tb methods G Gm files s).groups)).getD i .nul = _
   rw [getD_map_range _ _ hi]
   unfold siteCost
@@ -506,13 +510,14 @@ theorem site_time_conserved (tb : Tables) (hw : tb.WF) (methods : List String)
     (G : Dict String) (Gm : Dict MKey) (files : Files) (s : SiteRow) (i : Nat)
     (hi : i < methods.length) (x : Rat)
     (hsite : resolve [typeGet (typeRowOf files s) (methods[i] ++ tb.eqTimeKey),
-                      s.cells.get? (methods[i] ++ tb.eqTimeKey)] (Gm.get (methods[i], tb.eqTimeKey)) = .num x)
+                      s.cells.get? (methods[i] ++ tb.eqTimeKey)] (gmVal tb Gm (methods[i], tb.eqTimeKey)) = .num x)
     (hgs : groupsOf tb methods G Gm files s ≠ [])
+    (hint : (equipFor files s (findType files s)).Integral)
     (hno : NoGroupOverride (groupsOf tb methods G Gm files s) (methods[i] ++ tb.eqTimeKey)) :
     (buildSite tb methods G Gm files s).time.getD i none = some (roundHalfEven x) := by
   have hlen : (groupsOf tb methods G Gm files s).length ≠ 0 := by
     intro h; exact hgs (List.length_eq_zero_iff.mp h)
-  have hv := group_values_no_override tb hw methods G Gm files s i hi x tb.eqTimeKey (Or.inl rfl) hsite hno
+  have hv := group_values_no_override tb hw methods G Gm files s i hi x tb.eqTimeKey (Or.inl rfl) hsite hint hno
   simp only [if_true] at hv
   show ((List.range methods.length).map (siteTime (buildSite tb methods G Gm files s).groups)).getD i none = _
   rw [getD_map_range _ _ hi]
@@ -564,23 +569,23 @@ theorem structure_groups_named (tb : Tables) (methods : List String) (G : Dict S
   rw [hspec]
   simp [siteGroups, Function.comp_def, groupAt, buildGroup]
 
-/-- numeric equipment `k`: `max k 1` placeholder groups numbered from 0 -/
+/-- numeric equipment `q`: one placeholder group for `0`, else `int(q)` groups numbered from 0 -/
 theorem structure_groups_numeric (tb : Tables) (methods : List String) (G : Dict String) (Gm : Dict MKey)
-    (files : Files) (s : SiteRow) (k : Nat)
-    (hspec : equipFor files s (findType files s) = .count k) :
+    (files : Files) (s : SiteRow) (q : Rat)
+    (hspec : equipFor files s (findType files s) = .count q) :
     (buildSite tb methods G Gm files s).groups.map (·.gid)
-      = if k = 0 then ["0"] else (List.range k).map toString := by
+      = if q = 0 then ["0"] else (List.range q.floor.toNat).map toString := by
   rw [buildSite_groups, List.map_map]
   unfold groupsOf
   rw [hspec]
-  by_cases hk : k = 0
-  · simp [siteGroups, hk, Function.comp_def, groupAt, buildGroup]
-  · simp [siteGroups, hk, Function.comp_def, groupAt, buildGroup]
+  by_cases hq : q = 0
+  · simp [siteGroups, hq, Function.comp_def, groupAt, buildGroup]
+  · simp [siteGroups, hq, Function.comp_def, groupAt, buildGroup]
 
 /-- per group: for every component column of the equipment row, as many components as its count,
 named `<type>_<index>` -/
 theorem structure_components (tb : Tables) (methods : List String) (files : Files) (G : Dict String)
-    (Gm : Dict MKey) (T : Option Row) (S : Row) (gid : String) (E : Row) (nG : Nat) :
+    (Gm : Dict MKey) (T : Option Row) (S : Row) (gid : String) (E : Row) (nG : Rat) :
     (groupAt tb methods files G Gm T S gid E nG).comps.map (·.cid)
       = (cleanedCells tb E).flatMap (fun c =>
           (List.range (cellCount c.2)).map (fun i => compType c.1 ++ "_" ++ toString i))
@@ -633,21 +638,21 @@ theorem tables_placeholder_names :
   simpa [cleanedCells] using hk
 
 /-- the number of placeholder components of a site with numeric equipment: `⌈rate·730⌉` split over
-`k` groups (`⌈count/k⌉` each) -/
-theorem structure_placeholder_counts (tb : Tables) (files : Files) (d : Dict String) (k : Nat) :
-    (siteGroups tb files (.count k) d).map (fun g => g.2.1.map (fun c => cellCount c.2))
+the groups (`⌈count/q⌉` each) -/
+theorem structure_placeholder_counts (tb : Tables) (files : Files) (d : Dict String) (q : Rat) :
+    (siteGroups tb files (.count q) d).map (fun g => g.2.1.map (fun c => cellCount c.2))
       = (let cnt := placeholderCount (placeholderKind (d.get tb.siteRepEpr) (d.get tb.siteNonRepEpr))
                       (d.get tb.siteRepEpr) (d.get tb.siteNonRepEpr)
-         if k = 0 then [[cnt]]
-         else List.replicate k [(((cnt : Rat) / (k : Rat)).ceil.toNat)]) := by
+         if q = 0 then [[cnt]]
+         else List.replicate q.floor.toNat [(((cnt : Rat) / q).ceil.toNat)]) := by
   have hfl : ∀ n : Nat, cellCount (.num (n : Rat)) = n := by
     intro n
     simp only [cellCount]
     have : ((n : Rat)).floor = (n : Int) := Rat.floor_intCast (n : Int)
     rw [this]; rfl
-  by_cases hk : k = 0
-  · simp [siteGroups, hk, hfl]
-  · simp only [siteGroups, hk, if_false, List.map_map]
+  by_cases hq : q = 0
+  · simp [siteGroups, hq, hfl]
+  · simp only [siteGroups, hq, if_false, List.map_map]
     rw [List.eq_replicate_iff]
     constructor
     · simp
@@ -664,7 +669,7 @@ theorem tables_placeholder_shared_dict : tables.SharedOK := by decide
 dictionary (no copy); the second source nevertheless ends up with exactly the values it would get
 from a fresh copy -/
 theorem placeholder_second_source (tb : Tables) (hw : tb.WF) (hsh : tb.SharedOK)
-    (methods : List String) (G : Dict String) (Gm : Dict MKey) (T : Option Row) (S E : Row) (nG : Nat)
+    (methods : List String) (G : Dict String) (Gm : Dict MKey) (T : Option Row) (S E : Row) (nG : Rat)
     (sid : String) (m : Dict MKey) :
     sourceEff tb methods sid false [] (unprefixLoop tb.repPrefix [] (compCtx tb methods G Gm T S E nG)) m
       = sourceEff tb methods sid false [] (compCtx tb methods G Gm T S E nG) m := by
@@ -706,7 +711,7 @@ theorem structure_sources_placeholder_ctx (tb : Tables) (hw : tb.WF) (hsh : tb.S
         ∧ compType tb.placeholderNonRep ≠ compType tb.placeholderBoth
         ∧ compType tb.placeholderNonRep ≠ compType tb.placeholderRep)
     (methods : List String) (files : Files) (G : Dict String) (Gm : Dict MKey) (T : Option Row)
-    (S E : Row) (nG : Nat) (m : Dict MKey) :
+    (S E : Row) (nG : Rat) (m : Dict MKey) :
     componentSources tb methods files (compType tb.placeholderBoth) (compCtx tb methods G Gm T S E nG) m
         = [sourceEff tb methods (compType tb.placeholderRep) true [] (compCtx tb methods G Gm T S E nG) m,
            sourceEff tb methods (compType tb.placeholderNonRep) false [] (compCtx tb methods G Gm T S E nG) m]
@@ -719,13 +724,170 @@ theorem structure_sources_placeholder_ctx (tb : Tables) (hw : tb.WF) (hsh : tb.S
   have := placeholder_second_source tb hw hsh methods G Gm T S E nG (compType tb.placeholderNonRep) m
   simp only [componentSources, if_true, this]
 
+/-! ### the component rate is what the sources carry -/
+
+/-- a source whose own row gives no production rate carries exactly the rate of its component (the
+value the component's dictionary holds under the prefixed key) -/
+theorem source_rate_is_component_rate (tb : Tables) (hw : tb.WF) (methods : List String)
+    (G : Dict String) (Gm : Dict MKey) (T : Option Row) (S E R : Row) (nG : Rat) (sid : String)
+    (rep : Bool) (m : Dict MKey) (hR : R.get? tb.srcEpr = none) :
+    (sourceEff tb methods sid rep R (compCtx tb methods G Gm T S E nG) m).epr
+      = (compCtx tb methods G Gm T S E nG).get (tb.prefixOf rep ++ tb.srcEpr) := by
+  have e : tb.srcEpr ∈ tb.srcKeysFor rep := by simp [Tables.srcKeysFor]
+  have hsc : tb.prefixOf rep ++ tb.srcEpr ∈ tb.scalePlain :=
+    (hw.2.1.named.scaledIff rep (by cases rep <;> simp) _ e).mpr rfl
+  have hkey := (hw.2.2.2 rep (by cases rep <;> simp) _ e).1
+  rw [source_production_rate_spec tb hw, get_compCtx tb hw.1 hw.2.1 methods G Gm T S E nG _ hkey]
+  simp [hsc, hR]
+
+/-- every source of a component of a group is built from the component's dictionary (the second
+source of a two-kind placeholder included, although the code hands it the dictionary the first one
+has already written to) -/
+theorem mem_componentSources (tb : Tables) (hw : tb.WF) (hsh : tb.SharedOK) (methods : List String)
+    (files : Files) (G : Dict String) (Gm : Dict MKey) (T : Option Row) (S E : Row) (nG : Rat)
+    (ty : String) (m : Dict MKey) (s : SourceEff)
+    (hs : s ∈ componentSources tb methods files ty (compCtx tb methods G Gm T S E nG) m) :
+    ∃ sid rep R, s = sourceEff tb methods sid rep R (compCtx tb methods G Gm T S E nG) m := by
+  unfold componentSources at hs
+  simp only at hs
+  split at hs
+  · simp only [List.mem_cons, List.not_mem_nil, or_false] at hs
+    rcases hs with hs | hs
+    · exact ⟨_, _, _, hs⟩
+    · rw [placeholder_second_source tb hw hsh] at hs
+      exact ⟨_, _, _, hs⟩
+  · split at hs
+    · simp only [List.mem_singleton] at hs
+      exact ⟨_, _, _, hs⟩
+    · split at hs
+      · simp only [List.mem_singleton] at hs
+        exact ⟨_, _, _, hs⟩
+      · cases hsrc : files.sources with
+        | none => rw [hsrc] at hs; simp at hs
+        | some rows =>
+          rw [hsrc] at hs
+          simp only [List.mem_map] at hs
+          obtain ⟨r, _, hr⟩ := hs
+          exact ⟨_, _, _, hr.symm⟩
+
+/-- **the link to `Source._emis_prod_rate`**: in every component of every group, a source whose own
+row gives no rate carries the component's repairable resp. non-repairable rate — the quantity the
+conservation theorems add up is observable at the sources -/
+theorem observed_component_rate (tb : Tables) (hw : tb.WF) (hsh : tb.SharedOK) (methods : List String)
+    (files : Files) (G : Dict String) (Gm : Dict MKey) (T : Option Row) (S : Row) (gid : String)
+    (E : Row) (nG : Rat) :
+    ∀ c ∈ (groupAt tb methods files G Gm T S gid E nG).comps, ∀ s ∈ c.sources, s.ownRate = false →
+      s.epr = if s.rep then c.repRate else c.nonRate := by
+  intro c hc s hs hown
+  rw [groupAt_comps] at hc
+  simp only [List.mem_flatMap, List.mem_map] at hc
+  obtain ⟨col, _, i, _, hci⟩ := hc
+  subst hci
+  simp only at hs ⊢
+  obtain ⟨sid, rep, R, hsrc⟩ := mem_componentSources tb hw hsh methods files G Gm T S E nG _ _ s hs
+  have hR : R.get? tb.srcEpr = none := by
+    have : s.ownRate = (R.get? tb.srcEpr).isSome := by rw [hsrc]; rfl
+    rw [this] at hown
+    cases h : R.get? tb.srcEpr with
+    | none => rfl
+    | some v => rw [h] at hown; simp at hown
+  have hrep : s.rep = rep := by rw [hsrc]; rfl
+  rw [hrep, hsrc, source_rate_is_component_rate tb hw methods G Gm T S E R nG sid rep _ hR]
+  cases rep
+  · simp [Tables.prefixOf, hw.2.1.named.nonEq]
+  · simp [Tables.prefixOf, hw.2.1.named.repEq]
+
+/-- **production rate conserved at the sources**: choose in every component one repairable source
+whose own row gives no rate (`pick`); the `_emis_prod_rate` values of the chosen sources add up, over
+all components of all equipment groups, to the site's value -/
+theorem site_source_rates_conserved (tb : Tables) (hw : tb.WF) (hsh : tb.SharedOK) (methods : List String)
+    (G : Dict String) (Gm : Dict MKey) (files : Files) (s : SiteRow) (x : Rat) (hx : 0 ≤ x)
+    (hsite : resolve [typeGet (typeRowOf files s) tb.eqRepEpr, s.cells.get? tb.eqRepEpr] (G.get tb.eqRepEpr) = .num x)
+    (hgs : groupsOf tb methods G Gm files s ≠ [])
+    (hint : (equipFor files s (findType files s)).Integral)
+    (hno : NoGroupOverride (groupsOf tb methods G Gm files s) tb.eqRepEpr)
+    (hcomp : ∀ g ∈ groupsOf tb methods G Gm files s, totalComponents tb g.2.1 ≠ 0)
+    (pick : CompEff → SourceEff)
+    (hpick : ∀ g ∈ (buildSite tb methods G Gm files s).groups, ∀ c ∈ g.comps,
+        pick c ∈ c.sources ∧ (pick c).rep = true ∧ (pick c).ownRate = false) :
+    ((buildSite tb methods G Gm files s).groups.map
+        (fun g => (g.comps.map (fun c => numOf (pick c).epr)).sum)).sum = x := by
+  have hobs : ∀ g ∈ (buildSite tb methods G Gm files s).groups, ∀ c ∈ g.comps,
+      numOf (pick c).epr = numOf c.repRate := by
+    intro g hg c hc
+    obtain ⟨hmem, hrep, hown⟩ := hpick g hg c hc
+    rw [buildSite_groups] at hg
+    obtain ⟨g0, _, hg0⟩ := List.mem_map.mp hg
+    subst hg0
+    have := observed_component_rate tb hw hsh methods files G Gm _ _ _ _ _ c hc (pick c) hmem hown
+    rw [this, hrep]; rfl
+  have : (buildSite tb methods G Gm files s).groups.map
+        (fun g => (g.comps.map (fun c => numOf (pick c).epr)).sum)
+      = (buildSite tb methods G Gm files s).groups.map
+        (fun g => (g.comps.map (fun c => numOf c.repRate)).sum) := by
+    apply List.map_congr_left
+    intro g hg
+    rw [List.map_congr_left (hobs g hg)]
+  rw [this]
+  exact site_production_rate_conserved tb hw methods G Gm files s x hx hsite hgs hint hno hcomp
+
+/-! ### global counts -/
+
+/-- the number of components of a site is the sum, over its equipment groups, of the component counts
+of the group's equipment row -/
+theorem site_component_count (tb : Tables) (methods : List String) (G : Dict String) (Gm : Dict MKey)
+    (files : Files) (s : SiteRow) :
+    ((buildSite tb methods G Gm files s).groups.map (fun g => g.comps.length)).sum
+      = ((groupsOf tb methods G Gm files s).map (fun g => totalComponents tb g.2.1)).sum := by
+  rw [buildSite_groups, List.map_map]
+  congr 1
+  apply List.map_congr_left
+  intro g _
+  exact (structure_components tb methods files G Gm _ _ g.1 g.2.1 g.2.2).2
+
+/-- the number of sources of a group: for every component column, its count times the number of
+sources a component of that type gets -/
+theorem group_source_count (tb : Tables) (methods : List String) (files : Files) (G : Dict String)
+    (Gm : Dict MKey) (T : Option Row) (S : Row) (gid : String) (E : Row) (nG : Rat) :
+    ((groupAt tb methods files G Gm T S gid E nG).comps.map (fun c => c.sources.length)).sum
+      = ((cleanedCells tb E).map (fun col => cellCount col.2 *
+          (componentSources tb methods files (compType col.1) (compCtx tb methods G Gm T S E nG)
+            (groupCtx tb methods G Gm T S E nG).2).length)).sum := by
+  rw [groupAt_comps]
+  induction cleanedCells tb E with
+  | nil => rfl
+  | cons col cols ih =>
+    simp only [List.flatMap_cons, List.map_append, List.sum_append, List.map_cons, List.sum_cons, ih,
+      List.map_map]
+    congr 1
+    have : ∀ (n k : Nat), ((List.range n).map (fun _ => k)).sum = n * k := by
+      intro n k
+      induction n with
+      | zero => simp
+      | succ n ihn => simp [List.range_succ, List.sum_append, ihn, Nat.succ_mul]
+    simp only [Function.comp_def]
+    exact this _ _
+
+/-- a component of a user-defined type gets as many sources as the sources file has rows naming the type -/
+theorem component_source_count_file (tb : Tables) (methods : List String) (files : Files) (ty : String)
+    (d : Dict String) (m : Dict MKey) (rows : List SrcRow) (hrows : files.sources = some rows)
+    (h1 : ty ≠ compType tb.placeholderBoth) (h2 : ty ≠ compType tb.placeholderRep)
+    (h3 : ty ≠ compType tb.placeholderNonRep) :
+    (componentSources tb methods files ty d m).length = rows.countP (fun r => r.comp = ty)
+    ∧ (componentSources tb methods files ty d m).map (fun s => (s.sid, s.rep))
+        = (rows.filter (fun r => r.comp = ty)).map (fun r => (r.sid, r.rep)) := by
+  rw [structure_sources_file tb methods files ty d m rows hrows h1 h2 h3]
+  constructor
+  · rw [List.length_map, List.countP_eq_length_filter]
+  · simp [sourceEff, Function.comp_def]
+
 /-! ## 6. the property -/
 
 /-- the values the chain of levels prescribes for a source (row `R`, repairable flag `rep`) of a
 component of the equipment group with row `E` (one of `nG` groups) of a site with row `S` and site
 type row `T` -/
 structure SourceSpec (tb : Tables) (methods : List String) (G : Dict String) (Gm : Dict MKey)
-    (T : Option Row) (S E R : Row) (nG : Nat) (rep : Bool) (s : SourceEff) : Prop where
+    (T : Option Row) (S E R : Row) (nG : Rat) (rep : Bool) (s : SourceEff) : Prop where
   ers : s.ers = resolve (upper T S E (tb.prefixOf rep ++ tb.srcErs) ++ [R.get? tb.srcErs]) (G.get (tb.prefixOf rep ++ tb.srcErs))
   dur : s.dur = resolve (upper T S E (tb.prefixOf rep ++ tb.srcDur) ++ [R.get? tb.srcDur]) (G.get (tb.prefixOf rep ++ tb.srcDur))
   multi : s.multi = resolve (upper T S E (tb.prefixOf rep ++ tb.srcMulti) ++ [R.get? tb.srcMulti]) (G.get (tb.prefixOf rep ++ tb.srcMulti))
@@ -735,16 +897,16 @@ structure SourceSpec (tb : Tables) (methods : List String) (G : Dict String) (Gm
   epr : s.epr = resolve [R.get? tb.srcEpr]
       ((resolve [E.get? (tb.prefixOf rep ++ tb.srcEpr)]
         ((resolve [typeGet T (tb.prefixOf rep ++ tb.srcEpr), S.get? (tb.prefixOf rep ++ tb.srcEpr)]
-            (G.get (tb.prefixOf rep ++ tb.srcEpr))).divNat nG)).divPos (totalComponents tb E))
+            (G.get (tb.prefixOf rep ++ tb.srcEpr))).divBy nG)).divPos (totalComponents tb E))
   spatial : s.spatial = methods.map (fun me =>
-      resolve (upper T S E (me ++ tb.srcSpatial) ++ [R.get? (me ++ tb.srcSpatial)]) (Gm.get (me, tb.srcSpatial)))
+      resolve (upper T S E (me ++ tb.srcSpatial) ++ [R.get? (me ++ tb.srcSpatial)]) (gmVal tb Gm (me, tb.srcSpatial)))
   temporal : s.temporal = methods.map (fun me =>
-      resolve (upper T S E (me ++ tb.srcTemporal) ++ [R.get? (me ++ tb.srcTemporal)]) (Gm.get (me, tb.srcTemporal)))
+      resolve (upper T S E (me ++ tb.srcTemporal) ++ [R.get? (me ++ tb.srcTemporal)]) (gmVal tb Gm (me, tb.srcTemporal)))
 
 /-- every source the model creates from a row of the sources file (or as single-kind placeholder)
 carries the prescribed values -/
 theorem source_spec (tb : Tables) (hw : tb.WF) (methods : List String) (G : Dict String)
-    (Gm : Dict MKey) (T : Option Row) (S E R : Row) (nG : Nat) (sid : String) (rep : Bool) :
+    (Gm : Dict MKey) (T : Option Row) (S E R : Row) (nG : Rat) (sid : String) (rep : Bool) :
     SourceSpec tb methods G Gm T S E R nG rep
       (sourceEff tb methods sid rep R (compCtx tb methods G Gm T S E nG) (groupCtx tb methods G Gm T S E nG).2) := by
   have h1 := source_most_granular_wins tb hw methods G Gm T S E R nG sid rep (groupCtx tb methods G Gm T S E nG).2
@@ -755,41 +917,29 @@ theorem source_spec (tb : Tables) (hw : tb.WF) (methods : List String) (G : Dict
 
 /-- C15 at full strength over the model instantiated with the key tables extracted from the source:
 for all parameter files, infrastructure files and samples —
- (1) every source built from a sources-file row carries, for every propagating parameter, the value of
-     the most granular level that specifies it (production rate: with the split over groups and
-     components), and such a source is what every component of every group of every site holds
-     (placeholder components: one repairable and/or one non-repairable such source without a row);
+ (1) every source a component creates carries, for every propagating parameter, the value of the most
+     granular level that specifies it (production rate: with the split over groups and components);
+     every source of every component of every group is such a source, and one whose own row gives no
+     rate carries the component's rate;
  (2) every group's survey time/cost and every site's frequency / months / years / deployment likewise;
- (3) without equipment-level overrides the components' production rates, the groups' survey costs
-     and times add back up to the site value;
+ (3) when the equipment cell names groups or is a whole number, no equipment row overrides the
+     quantity and every group has a component, the `_emis_prod_rate` of one un-overridden repairable
+     source per component, the groups' survey costs and times add back up to the site value;
  (4) a sample of `n` distinct rows gives exactly `n` sites, with distinct ids when the file's ids are
-     distinct, each with the groups, components and sources the files describe. -/
+     distinct; a site has the groups its equipment cell names, each group as many components as its
+     equipment row counts, each component as many sources as the sources file has rows for its type. -/
 def C15_statement : Prop :=
   ∀ (methods : List String) (G : Dict String) (Gm : Dict MKey) (files : Files),
     -- (1) sources
-    (∀ (T : Option Row) (S E R : Row) (nG : Nat) (sid : String) (rep : Bool),
+    (∀ (T : Option Row) (S E R : Row) (nG : Rat) (sid : String) (rep : Bool),
       SourceSpec tables methods G Gm T S E R nG rep
         (sourceEff tables methods sid rep R (compCtx tables methods G Gm T S E nG)
           (groupCtx tables methods G Gm T S E nG).2)) ∧
-    (∀ (s : SiteRow) (ty : String) (rows : List SrcRow), files.sources = some rows →
-      ty ≠ compType tables.placeholderBoth → ty ≠ compType tables.placeholderRep →
-      ty ≠ compType tables.placeholderNonRep →
-      ∀ g ∈ groupsOf tables methods G Gm files s,
-        componentSources tables methods files ty
-            (compCtx tables methods G Gm (typeRowOf files s) s.cells g.2.1 g.2.2)
-            (groupCtx tables methods G Gm (typeRowOf files s) s.cells g.2.1 g.2.2).2
-          = (rows.filter (fun r => r.comp = ty)).map (fun r =>
-              sourceEff tables methods r.sid r.rep r.cells
-                (compCtx tables methods G Gm (typeRowOf files s) s.cells g.2.1 g.2.2)
-                (groupCtx tables methods G Gm (typeRowOf files s) s.cells g.2.1 g.2.2).2)) ∧
-    (∀ (T : Option Row) (S E : Row) (nG : Nat) (m : Dict MKey),
-      componentSources tables methods files (compType tables.placeholderBoth) (compCtx tables methods G Gm T S E nG) m
-          = [sourceEff tables methods "Placeholder_Rep" true [] (compCtx tables methods G Gm T S E nG) m,
-             sourceEff tables methods "Placeholder_NonRep" false [] (compCtx tables methods G Gm T S E nG) m]
-      ∧ componentSources tables methods files (compType tables.placeholderRep) (compCtx tables methods G Gm T S E nG) m
-          = [sourceEff tables methods "Placeholder_Rep" true [] (compCtx tables methods G Gm T S E nG) m]
-      ∧ componentSources tables methods files (compType tables.placeholderNonRep) (compCtx tables methods G Gm T S E nG) m
-          = [sourceEff tables methods "Placeholder_NonRep" false [] (compCtx tables methods G Gm T S E nG) m]) ∧
+    (∀ (T : Option Row) (S E : Row) (nG : Rat) (gid ty : String) (m : Dict MKey),
+      (∀ s ∈ componentSources tables methods files ty (compCtx tables methods G Gm T S E nG) m,
+        ∃ sid rep R, s = sourceEff tables methods sid rep R (compCtx tables methods G Gm T S E nG) m) ∧
+      (∀ c ∈ (groupAt tables methods files G Gm T S gid E nG).comps, ∀ s ∈ c.sources,
+        s.ownRate = false → s.epr = if s.rep then c.repRate else c.nonRate)) ∧
     -- (2) groups and sites
     (∀ (s : SiteRow),
       (buildSite tables methods G Gm files s).groups
@@ -798,92 +948,133 @@ def C15_statement : Prop :=
       (∀ g ∈ groupsOf tables methods G Gm files s,
         let grp := groupAt tables methods files G Gm (typeRowOf files s) s.cells g.1 g.2.1 g.2.2
         let spec := fun p me => resolve [g.2.1.get? (me ++ p)]
-          ((resolve [typeGet (typeRowOf files s) (me ++ p), s.cells.get? (me ++ p)] (Gm.get (me, p))).divNat g.2.2)
+          ((resolve [typeGet (typeRowOf files s) (me ++ p), s.cells.get? (me ++ p)]
+              (gmVal tables Gm (me, p))).divBy g.2.2)
         grp.gid = g.1 ∧ grp.times = methods.map (spec tables.eqTimeKey) ∧
         grp.costs = methods.map (spec tables.eqCostKey) ∧
-        g.2.2 = (groupsOf tables methods G Gm files s).length ∧
-        grp.comps.map (·.cid) = (cleanedCells tables g.2.1).flatMap (fun c =>
-          (List.range (cellCount c.2)).map (fun i => compType c.1 ++ "_" ++ toString i)) ∧
-        ∀ c ∈ grp.comps, ∃ col ∈ cleanedCells tables g.2.1,
-          c.sources = componentSources tables methods files (compType col.1)
-            (compCtx tables methods G Gm (typeRowOf files s) s.cells g.2.1 g.2.2)
-            (groupCtx tables methods G Gm (typeRowOf files s) s.cells g.2.1 g.2.2).2) ∧
+        ((equipFor files s (findType files s)).Integral →
+          g.2.2 = ((groupsOf tables methods G Gm files s).length : Rat))) ∧
       (let site := buildSite tables methods G Gm files s
        let spec := fun p gv me =>
          resolve [typeGet (typeRowOf files s) (me ++ p), s.cells.get? (me ++ p)] (gv me)
        site.sid = s.sid ∧ site.stype = s.stype ∧
-       site.freq = methods.map (spec tables.freqKey (fun me => Gm.get (me, tables.freqKey))) ∧
-       site.months = methods.map (spec tables.monthsKey (fun me => Gm.get (me, tables.monthsKey))) ∧
-       site.years = methods.map (spec tables.yearsKey (fun me => Gm.get (me, tables.yearsKey))) ∧
+       site.freq = methods.map (spec tables.freqKey (fun me => gmVal tables Gm (me, tables.freqKey))) ∧
+       site.months = methods.map (spec tables.monthsKey (fun me => gmVal tables Gm (me, tables.monthsKey))) ∧
+       site.years = methods.map (spec tables.yearsKey (fun me => gmVal tables Gm (me, tables.yearsKey))) ∧
        site.deploy = methods.map (spec tables.siteDeploy (fun _ => PV.tru)))) ∧
     -- (3) conservation
     (∀ (s : SiteRow) (x : Rat), 0 ≤ x → groupsOf tables methods G Gm files s ≠ [] →
+      (equipFor files s (findType files s)).Integral →
       (∀ g ∈ groupsOf tables methods G Gm files s, totalComponents tables g.2.1 ≠ 0) →
-      (resolve [typeGet (typeRowOf files s) tables.eqRepEpr, s.cells.get? tables.eqRepEpr]
+      resolve [typeGet (typeRowOf files s) tables.eqRepEpr, s.cells.get? tables.eqRepEpr]
             (G.get tables.eqRepEpr) = .num x →
-        NoGroupOverride (groupsOf tables methods G Gm files s) tables.eqRepEpr →
+      NoGroupOverride (groupsOf tables methods G Gm files s) tables.eqRepEpr →
+      ∀ (pick : CompEff → SourceEff),
+        (∀ g ∈ (buildSite tables methods G Gm files s).groups, ∀ c ∈ g.comps,
+          pick c ∈ c.sources ∧ (pick c).rep = true ∧ (pick c).ownRate = false) →
         ((buildSite tables methods G Gm files s).groups.map
-          (fun g => (g.comps.map (fun c => numOf c.repRate)).sum)).sum = x) ∧
-      (resolve [typeGet (typeRowOf files s) tables.eqNonRepEpr, s.cells.get? tables.eqNonRepEpr]
+          (fun g => (g.comps.map (fun c => numOf (pick c).epr)).sum)).sum = x) ∧
+    (∀ (s : SiteRow) (x : Rat), 0 ≤ x → groupsOf tables methods G Gm files s ≠ [] →
+      (equipFor files s (findType files s)).Integral →
+      (∀ g ∈ groupsOf tables methods G Gm files s, totalComponents tables g.2.1 ≠ 0) →
+      resolve [typeGet (typeRowOf files s) tables.eqNonRepEpr, s.cells.get? tables.eqNonRepEpr]
             (G.get tables.eqNonRepEpr) = .num x →
-        NoGroupOverride (groupsOf tables methods G Gm files s) tables.eqNonRepEpr →
-        ((buildSite tables methods G Gm files s).groups.map
-          (fun g => (g.comps.map (fun c => numOf c.nonRate)).sum)).sum = x)) ∧
+      NoGroupOverride (groupsOf tables methods G Gm files s) tables.eqNonRepEpr →
+      ((buildSite tables methods G Gm files s).groups.map
+        (fun g => (g.comps.map (fun c => numOf c.nonRate)).sum)).sum = x) ∧
     (∀ (s : SiteRow) (i : Nat) (hi : i < methods.length) (x : Rat),
       groupsOf tables methods G Gm files s ≠ [] →
+      (equipFor files s (findType files s)).Integral →
       (resolve [typeGet (typeRowOf files s) (methods[i] ++ tables.eqCostKey),
-                s.cells.get? (methods[i] ++ tables.eqCostKey)] (Gm.get (methods[i], tables.eqCostKey)) = .num x →
+                s.cells.get? (methods[i] ++ tables.eqCostKey)] (gmVal tables Gm (methods[i], tables.eqCostKey)) = .num x →
         NoGroupOverride (groupsOf tables methods G Gm files s) (methods[i] ++ tables.eqCostKey) →
         (buildSite tables methods G Gm files s).cost.getD i .nul = .num x) ∧
       (resolve [typeGet (typeRowOf files s) (methods[i] ++ tables.eqTimeKey),
-                s.cells.get? (methods[i] ++ tables.eqTimeKey)] (Gm.get (methods[i], tables.eqTimeKey)) = .num x →
+                s.cells.get? (methods[i] ++ tables.eqTimeKey)] (gmVal tables Gm (methods[i], tables.eqTimeKey)) = .num x →
         NoGroupOverride (groupsOf tables methods G Gm files s) (methods[i] ++ tables.eqTimeKey) →
         (buildSite tables methods G Gm files s).time.getD i none = some (roundHalfEven x))) ∧
-    -- (4) the sites of the world
+    -- (4) the sites of the world and their structure
     (∀ (picks : List Nat) (n : Nat), ValidPicks files.sites.length n picks →
       (buildWorld tables methods G Gm files picks).length = n ∧
       (buildWorld tables methods G Gm files picks).map (fun s => (s.sid, s.stype))
         = picks.map (fun i => ((files.sites.getD i default).sid, (files.sites.getD i default).stype)) ∧
-      ((files.sites.map (·.sid)).Nodup → ((buildWorld tables methods G Gm files picks).map (·.sid)).Nodup))
+      ((files.sites.map (·.sid)).Nodup → ((buildWorld tables methods G Gm files picks).map (·.sid)).Nodup)) ∧
+    (∀ (s : SiteRow),
+      (∀ raw, equipFor files s (findType files s) = .named raw →
+        (buildSite tables methods G Gm files s).groups.map (·.gid) = splitEquip raw) ∧
+      (∀ q, equipFor files s (findType files s) = .count q →
+        (buildSite tables methods G Gm files s).groups.map (·.gid)
+          = if q = 0 then ["0"] else (List.range q.floor.toNat).map toString) ∧
+      ((buildSite tables methods G Gm files s).groups.map (fun g => g.comps.length)).sum
+        = ((groupsOf tables methods G Gm files s).map (fun g => totalComponents tables g.2.1)).sum) ∧
+    (∀ (T : Option Row) (S E : Row) (nG : Rat) (gid : String),
+      (groupAt tables methods files G Gm T S gid E nG).comps.map (·.cid)
+        = (cleanedCells tables E).flatMap (fun c =>
+            (List.range (cellCount c.2)).map (fun i => compType c.1 ++ "_" ++ toString i)) ∧
+      ((groupAt tables methods files G Gm T S gid E nG).comps.map (fun c => c.sources.length)).sum
+        = ((cleanedCells tables E).map (fun col => cellCount col.2 *
+            (componentSources tables methods files (compType col.1) (compCtx tables methods G Gm T S E nG)
+              (groupCtx tables methods G Gm T S E nG).2).length)).sum) ∧
+    (∀ (ty : String) (d : Dict String) (m : Dict MKey) (rows : List SrcRow), files.sources = some rows →
+      ty ≠ "Placeholder" → ty ≠ "Placeholder_Rep" → ty ≠ "Placeholder_NonRep" →
+      (componentSources tables methods files ty d m).length = rows.countP (fun r => r.comp = ty) ∧
+      (componentSources tables methods files ty d m).map (fun s => (s.sid, s.rep))
+        = (rows.filter (fun r => r.comp = ty)).map (fun r => (r.sid, r.rep))) ∧
+    (∀ (d : Dict String) (m : Dict MKey),
+      (componentSources tables methods files "Placeholder" d m).map (fun s => (s.sid, s.rep))
+        = [("Placeholder_Rep", true), ("Placeholder_NonRep", false)] ∧
+      (componentSources tables methods files "Placeholder_Rep" d m).map (fun s => (s.sid, s.rep))
+        = [("Placeholder_Rep", true)] ∧
+      (componentSources tables methods files "Placeholder_NonRep" d m).map (fun s => (s.sid, s.rep))
+        = [("Placeholder_NonRep", false)])
 
 theorem C15 : C15_statement := by
   intro methods G Gm files
   have hw := tables_wf
-  refine ⟨?_, ?_, ?_, ?_, ?_, ?_, ?_⟩
+  have hsh := tables_placeholder_shared_dict
+  have hn := tables_placeholder_names
+  have hd : compType tables.placeholderRep ≠ compType tables.placeholderBoth
+      ∧ compType tables.placeholderNonRep ≠ compType tables.placeholderBoth
+      ∧ compType tables.placeholderNonRep ≠ compType tables.placeholderRep := by
+    rw [hn.2.1, hn.2.2.1, hn.2.2.2]; decide
+  refine ⟨?_, ?_, ?_, ?_, ?_, ?_, ?_, ?_, ?_, ?_, ?_⟩
   · intro T S E R nG sid rep
     exact source_spec tables hw methods G Gm T S E R nG sid rep
-  · intro s ty rows hrows h1 h2 h3 g _
-    exact structure_sources_file tables methods files ty _ _ rows hrows h1 h2 h3
-  · intro T S E nG m
-    have hn := tables_placeholder_names
-    have hd : compType tables.placeholderRep ≠ compType tables.placeholderBoth
-        ∧ compType tables.placeholderNonRep ≠ compType tables.placeholderBoth
-        ∧ compType tables.placeholderNonRep ≠ compType tables.placeholderRep := by
-      rw [hn.2.1, hn.2.2.1, hn.2.2.2]; decide
-    have := structure_sources_placeholder_ctx tables hw tables_placeholder_shared_dict hd methods files G Gm T S E nG m
-    rw [hn.2.2.1, hn.2.2.2] at this
-    exact this
+  · intro T S E nG gid ty m
+    exact ⟨fun s hs => mem_componentSources tables hw hsh methods files G Gm T S E nG ty m s hs,
+      observed_component_rate tables hw hsh methods files G Gm T S gid E nG⟩
   · intro s
     refine ⟨buildSite_groups tables methods G Gm files s, ?_, site_most_granular_wins tables hw methods G Gm files s⟩
     intro g hg
     have hsp := group_survey_spec tables hw methods files G Gm (typeRowOf files s) s.cells g.1 g.2.1 g.2.2
-    have hst := structure_components tables methods files G Gm (typeRowOf files s) s.cells g.1 g.2.1 g.2.2
     simp only at hsp
-    refine ⟨hsp.1, hsp.2.1, hsp.2.2, siteGroups_divisor _ _ _ _ g hg, hst.1, ?_⟩
-    intro c hc
-    rw [groupAt_comps] at hc
-    simp only [List.mem_flatMap, List.mem_map] at hc
-    obtain ⟨col, hcol, i, _, hci⟩ := hc
-    exact ⟨col, hcol, by rw [← hci]⟩
-  · intro s x hx hgs hcomp
-    exact ⟨fun hsite hno => site_production_rate_conserved tables hw methods G Gm files s x hx hsite hgs hno hcomp,
-      fun hsite hno => site_production_rate_conserved_nonrep tables hw methods G Gm files s x hx hsite hgs hno hcomp⟩
-  · intro s i hi x hgs
-    exact ⟨fun hsite hno => site_cost_conserved tables hw methods G Gm files s i hi x hsite hgs hno,
-      fun hsite hno => site_time_conserved tables hw methods G Gm files s i hi x hsite hgs hno⟩
+    exact ⟨hsp.1, hsp.2.1, hsp.2.2, fun hint => siteGroups_divisor _ _ _ _ hint g hg⟩
+  · intro s x hx hgs hint hcomp hsite hno pick hpick
+    exact site_source_rates_conserved tables hw hsh methods G Gm files s x hx hsite hgs hint hno hcomp pick hpick
+  · intro s x hx hgs hint hcomp hsite hno
+    exact site_production_rate_conserved_nonrep tables hw methods G Gm files s x hx hsite hgs hint hno hcomp
+  · intro s i hi x hgs hint
+    exact ⟨fun hsite hno => site_cost_conserved tables hw methods G Gm files s i hi x hsite hgs hint hno,
+      fun hsite hno => site_time_conserved tables hw methods G Gm files s i hi x hsite hgs hint hno⟩
   · intro picks n hv
     exact ⟨site_count tables methods G Gm files picks n hv, site_ids tables methods G Gm files picks,
       site_ids_distinct tables methods G Gm files picks n hv⟩
+  · intro s
+    exact ⟨fun raw h => structure_groups_named tables methods G Gm files s raw h,
+      fun q h => structure_groups_numeric tables methods G Gm files s q h,
+      site_component_count tables methods G Gm files s⟩
+  · intro T S E nG gid
+    exact ⟨(structure_components tables methods files G Gm T S gid E nG).1,
+      group_source_count tables methods files G Gm T S gid E nG⟩
+  · intro ty d m rows hrows h1 h2 h3
+    exact component_source_count_file tables methods files ty d m rows hrows
+      (by rw [hn.2.1]; exact h1) (by rw [hn.2.2.1]; exact h2) (by rw [hn.2.2.2]; exact h3)
+  · intro d m
+    have := structure_sources_placeholder tables methods files d m hd
+    rw [hn.2.1, hn.2.2.1, hn.2.2.2] at this
+    refine ⟨this.1, ?_, ?_⟩
+    · rw [this.2.1]; rfl
+    · rw [this.2.2]; rfl
 
 /-! ## non-vacuity: a concrete world in which several levels specify the same parameters -/
 
@@ -964,6 +1155,52 @@ example :
         (fun g => (g.1, g.2.1, g.2.2))
       = [("0", [("Placeholder_Rep_Equipment", .num 3)], 3), ("1", [("Placeholder_Rep_Equipment", .num 3)], 3),
          ("2", [("Placeholder_Rep_Equipment", .num 3)], 3)] := by
+  decide +kernel
+
+/-! ## what is *not* conserved in the code as it stands (recorded findings) -/
+
+/-- the conservation clause without the two guards of `C15_statement` (3): any non-negative site rate,
+any equipment cell, any equipment rows -/
+def ConservationUnguarded : Prop :=
+  ∀ (methods : List String) (G : Dict String) (Gm : Dict MKey) (files : Files) (s : SiteRow) (x : Rat),
+    0 ≤ x → groupsOf tables methods G Gm files s ≠ [] →
+    resolve [typeGet (typeRowOf files s) tables.eqRepEpr, s.cells.get? tables.eqRepEpr]
+        (G.get tables.eqRepEpr) = .num x →
+    NoGroupOverride (groupsOf tables methods G Gm files s) tables.eqRepEpr →
+    ((buildSite tables methods G Gm files s).groups.map
+      (fun g => (g.comps.map (fun c => numOf c.repRate)).sum)).sum = x
+
+private def exEmptyGroup : Files :=
+  { exFiles with equipment := [{ name := "e1", cells := [("c1", .num 2), ("c2", .num 1)] },
+                               { name := "e2", cells := [("c1", .num 0), ("c2", .num 0)] }] }
+
+/-- known finding: an equipment group without components takes its `1/k` share of the site's
+production rate with it (site 7: rate 3/8 over groups e1 (3 components) and e2 (none): the components
+carry 3/16 in total) -/
+theorem conservation_counterexample_empty_group : ¬ ConservationUnguarded := by
+  intro h
+  have := h ["M"] exG exGm exEmptyGroup (exEmptyGroup.sites.getD 0 default) (3 / 8) (by decide +kernel)
+    (by decide +kernel) (by decide +kernel) (by decide +kernel)
+  revert this
+  decide +kernel
+
+private def exFractional : Files :=
+  { exFiles with sitesHaveEquip := true,
+                 sites := [{ sid := "7", stype := "A", equip := .count (5 / 2),
+                             cells := [("repairable_emissions_production_rate", .num (1 / 100))] }] }
+
+/-- known finding: a non-integer number in the equipment cell (2.5) creates `int(2.5) = 2` groups but
+divides by 2.5 (site rate 1/100: ⌈7.3⌉ = 8 placeholder components, 2 groups of ⌈8/2.5⌉ = 4, each
+component 1/1000: 8/1000 in total) -/
+theorem conservation_counterexample_fractional_equipment : ¬ ConservationUnguarded := by
+  intro h
+  have := h ["M"] exG exGm exFractional (exFractional.sites.getD 0 default) (1 / 100) (by decide +kernel)
+    (by decide +kernel) (by decide +kernel) (by decide +kernel)
+  revert this
+  decide +kernel
+
+/-- … and the survey time of that site: 90 minutes from the site type, two groups of 90/2.5 = 36 -/
+example : (buildSite tables ["M"] exG exGm exFractional (exFractional.sites.getD 0 default)).time = [some 72] := by
   decide +kernel
 
 /-- Python `round`: ties to even -/
